@@ -182,7 +182,12 @@ func c13Gen(rng *rand.Rand, idx, ncases int) c13Scenario {
 			c.Hdr = append(c.Hdr, [2]string{"X-Forwarded-Host", "spoofed.example"})
 		}
 		if rng.IntN(3) == 0 {
-			c.Hdr = append(c.Hdr, [2]string{"X-Request-Id", fmt.Sprintf("client-id-%d-%d", idx, i)})
+			id := fmt.Sprintf("client-id-%d-%d", idx, i)
+			if rng.IntN(3) == 0 { // a long id (a trace id that grew over several hops): 200..4000 bytes, around the usual caps of 255 and 1024
+				n := pick(rng, []int{200, 254, 255, 256, 257, 300, 1023, 1024, 1025, 2000, 4000})
+				id += "-" + strings.Repeat("0123456789abcdef/+=.", n/20+1)[:n-len(id)-1]
+			}
+			c.Hdr = append(c.Hdr, [2]string{"X-Request-Id", id})
 		}
 		if rng.IntN(6) == 0 {
 			c.Hdr = append(c.Hdr, [2]string{"X-Request-Start", "t=12345"})
